@@ -37,7 +37,7 @@ def nondec(rng, ty):
 
 
 def others(rng):
-    return [b"MAX", b"MAXimum", b"maximum", b"MIN", b"minimum", b"MINI", b"MAXI", b"MA", b"MAXIMUMM", b"DEF", b"INF", b"NAN", b"ON",
+    return keyword_near_misses(b"MAXimum") + keyword_near_misses(b"MINimum") + [b"MAX", b"MAXimum", b"maximum", b"MIN", b"minimum", b"MINI", b"MAXI", b"MA", b"MAXIMUMM", b"DEF", b"INF", b"NAN", b"ON",
             b"1 V", b"1.5e3 KHZ", b"0 S", b"'1'", b"\"12\"", b"#11", b"#13abc", b"(1)", b"(@1,2)", b"MAX1", b"MIN1"]
 
 
